@@ -11,12 +11,13 @@ Proof. exact log_domain_bound. Qed.
 Print Assumptions C02_log_domain_bound.
 
 (* every element through the log-transform path, for any inner codec that keeps the log-domain bound and any
-   placeholder / threshold constants with a - 1 > b > 1: within r|x|, zeros exact, sign kept *)
-Theorem C02_element : forall a b r minlog x y',
-  0 < r -> b + 1 < a -> 1 < b ->
+   placeholder / threshold offsets a*e + ta*t, b*e + tb*t with a - 1 > b > 1, ta >= tb >= 0, t >= 0: within r|x|,
+   zeros exact, sign kept *)
+Theorem C02_element : forall a ta b tb r minlog t x y',
+  0 < r -> 0 <= t -> b + 1 < a -> 1 < b -> tb <= ta -> 0 <= tb ->
   (x <> 0 -> minlog <= log2R (Rabs x)) ->
-  Rabs (y' - to_log a minlog (log2R (1 + r)) x) <= log2R (1 + r) ->
-  let x' := from_log b minlog (log2R (1 + r)) (is_neg x) y' in
+  Rabs (y' - to_log a ta minlog (log2R (1 + r)) t x) <= log2R (1 + r) ->
+  let x' := from_log b tb minlog (log2R (1 + r)) t (is_neg x) y' in
   Rabs (x' - x) <= r * Rabs x /\ (x = 0 -> x' = 0) /\ (0 < x -> 0 < x') /\ (x < 0 -> x' < 0).
 Proof. exact pwrel_element. Qed.
 Print Assumptions C02_element.
@@ -29,8 +30,8 @@ Print Assumptions C02_source_facts.
 
 (* with the constants the code had (2.0001 / 1.0001) a zero could land on the threshold and decode as non-zero *)
 Theorem C02_old_zero_edge_refuted : exists minlog e y', 0 < e /\
-  Rabs (y' - zero_placeholder 2.0001 minlog e) <= e /\ ~ y' < zero_threshold 1.0001 minlog e.
+  Rabs (y' - zero_placeholder 2.0001 0 minlog e 0) <= e /\ ~ y' < zero_threshold 1.0001 0 minlog e 0.
 Proof. exact old_zero_edge_refuted. Qed.
 
-Example C02_ex : 0 < 0.5 /\ 1.5 + 1 < 3 /\ 1 < 1.5.
+Example C02_ex : 0 < 0.5 /\ 1.5 + 1 < 3 /\ 1 < 1.5 /\ 4 <= 8 /\ 0 <= 4.
 Proof. lra. Qed.
